@@ -214,7 +214,11 @@ def check_selection(ctx: Ctx):
         outs = enumerate_paths(make)
         for out, it in zip(outs, holder):
             construct = f"{mcall.qual}:pred_idx={cname}"
-            if out.decisions or out.kind != "return" or len(it.root.inner_calls) != 1:
+            # splits on facts about the inputs' dtypes / ranges are input classes, not unmodelled conditions
+            opaque = [d for d in out.decisions if not (isinstance(d[1], Unknown) and str(d[1].tag).startswith(("dtype-fact", "range-fact")))]
+            if out.decisions and not opaque:
+                construct += "[" + "; ".join(f"{d[1].tag}={d[2]}" for d in out.decisions)[:200] + "]"
+            if opaque or out.kind != "return" or len(it.root.inner_calls) != 1:
                 ctx.undecided("R06.5", mcall, out.node, construct, f"label selection not evaluable: {out.kind} {out.exc or ''} calls={len(it.root.inner_calls)} decisions={[norm(d[0]) for d in out.decisions if isinstance(d[0], ast.AST)][:3]}")
                 continue
             _, b, node = it.root.inner_calls[0]
